@@ -944,6 +944,76 @@ class Engine:
                 return self._opt_fork(st, v, lambda s: some(('pin', ('ref', loc + (('dc', 'Some'), '0')))))
             return None
 
+        # ---- bool::then / then_some
+        if name in ('then', 'then_some') and len(args) == 2 and ('bool' in path or path.startswith('std::bool')):
+            outs = []
+            c = args[0]
+            k = self.known(st, c)
+            branches = []
+            if k and k[0] == 'eq':
+                branches = [(st, bool(k[1]))]
+            else:
+                st_f = st.copy()
+                if self.assume(st_f, c, 0):
+                    branches.append((st_f, False))
+                if self.assume(st, c, 1):
+                    branches.append((st, True))
+            for st2, truth in branches:
+                if not truth:
+                    # then_some evaluates (and here drops) its argument eagerly; `then` never calls the closure
+                    outs.append((st2, NONE))
+                elif name == 'then_some':
+                    outs.append((st2, some(args[1])))
+                else:
+                    for st3, rv in self.call_closure(st2, args[1], []):
+                        outs.append((st3, some(rv) if rv is not PANIC else PANIC))
+            return outs
+        # ---- integer conversions that can fail: <uN as TryFrom<uM>>::try_from(x) is Ok(x) iff x <= uN::MAX
+        if name == 'try_from' and len(args) == 1 and 'TryFrom' in (ci.get('trait') or '') + path:
+            m = re.search(r'<(u8|u16|u32|u64|usize) as', path + ' ' + (ci.get('gargs_str') or '')) or \
+                re.search(r'TryFrom<[a-z0-9]+> for (u8|u16|u32|u64|usize)>', path)
+            if m:
+                mx = {'u8': 2 ** 8 - 1, 'u16': 2 ** 16 - 1, 'u32': 2 ** 32 - 1, 'u64': 2 ** 64 - 1, 'usize': 2 ** 64 - 1}[m.group(1)]
+                x = args[0]
+                outs = []
+                st_e = st.copy()
+                if self.assume(st_e, ('bin', 'Gt', x, ('const', mx)), 1):
+                    eid = st_e.eid()
+                    outs.append((st_e, ('agg', RESULT, 'Err', (('0', ('ret', eid)),))))
+                if self.assume(st, ('bin', 'Gt', x, ('const', mx)), 0):
+                    outs.append((st, ('agg', RESULT, 'Ok', (('0', x),))))
+                return outs
+        if path.startswith('std::result::Result') and name in ('unwrap_or', 'unwrap_or_default', 'unwrap_or_else'):
+            outs = []
+            for st2, variant, inner in self._enum_split(st, args[0], RESULT, ('Ok', 'Err')):
+                if variant == 'Ok':
+                    outs.append((st2, inner))
+                elif name == 'unwrap_or':
+                    outs.append((st2, args[1]))
+                elif name == 'unwrap_or_default':
+                    outs.append((st2, ('const', 0)))
+                else:
+                    for st3, rv in self.call_closure(st2, args[1], [inner]):
+                        outs.append((st3, rv))
+            return outs
+        # ---- `for i in a..b`: Range<usize>::next
+        if name == 'next' and args and args[0][0] == 'ref' and 'ops::Range<' in (t.get('argtys') or [''])[0] \
+                and 'RangeInclusive' not in (t.get('argtys') or [''])[0]:
+            loc = self.deref(args[0])
+            start = self.read(st, loc + ('start',))
+            end = self.read(st, loc + ('end',))
+            outs = []
+            st_n = st.copy()
+            if self.assume(st_n, ('bin', 'Lt', start, end), 0):
+                outs.append((st_n, NONE))
+            if self.assume(st, ('bin', 'Lt', start, end), 1):
+                nxt = ('const', start[1] + 1) if start[0] == 'const' and isinstance(start[1], int) else \
+                    ('bin', 'Add', start, ('const', 1))
+                self.write(st, loc + ('start',), nxt)
+                outs.append((st, some(start)))
+            return outs
+        if name == 'into_iter' and len(args) == 1 and args[0][0] == 'agg' and str(args[0][1]).endswith('ops::Range'):
+            return [(st, args[0])]
         # ---- checked arithmetic on unsigned integers: checked_sub(a, b) is Some(a - b) iff a >= b
         if name == 'checked_sub' and len(args) == 2 and 'num' in path:
             a, b = args
@@ -1050,13 +1120,25 @@ class Engine:
                             self._write_ev(st3, fn, frame, loc, some(rv), t['ln'])
                             outs.append((st3, ('ref', loc + (('dc', 'Some'), '0'))))
                 return outs
+            if name == 'flatten':
+                outs = []
+                for st2, inner in self._opt_split(st, args[0]):
+                    outs.append((st2, NONE if inner is None else inner))
+                return outs
+            if name == 'unwrap_or_default':
+                outs = []
+                for st2, inner in self._opt_split(st, args[0]):
+                    outs.append((st2, ('const', 0) if inner is None else inner))
+                return outs
             if name == 'filter':
                 outs = []
                 for st2, inner in self._opt_split(st, args[0]):
                     if inner is None:
                         outs.append((st2, NONE))
                         continue
-                    for st3, rv in self.call_closure(st2, args[1], [inner]):
+                    tmp = (('C', st2.eid()),)
+                    st2.store[tmp] = inner          # the predicate receives &T
+                    for st3, rv in self.call_closure(st2, args[1], [('ref', tmp)]):
                         if rv is PANIC:
                             outs.append((st3, PANIC))
                             continue
@@ -1178,9 +1260,13 @@ class Engine:
             loc = self.deref(args[0])
             old = self.read(st, loc)
             if path == 'std::mem::take':
-                if not t.get('dest_ty', '').startswith('std::option::Option'):
+                dty = t.get('dest_ty', '')
+                if dty.startswith('std::option::Option'):
+                    new = NONE
+                elif dty in ('bool', 'usize', 'u8', 'u16', 'u32', 'u64', 'u128', 'isize', 'i8', 'i16', 'i32', 'i64'):
+                    new = ('const', 0)     # Default of a scalar
+                else:
                     return None
-                new = NONE
             else:
                 new = args[1]
             if new == NONE:
